@@ -257,10 +257,12 @@ Proof.
   unfold dress_meas, named at 2. destruct (String.eqb (iname i) k) eqn:Ei.
   - apply String.eqb_eq in Ei. rewrite Ei, E.
     induction (qubit_targets i) as [|q t IH]; [reflexivity|]. simpl.
-    unfold named at 1. simpl. rewrite F4, String.eqb_refl, IH, get_noise_settings_spec. reflexivity.
+    change (named k (meas_instr s m op q)) with (String.eqb (stim_canonical op) k).
+    rewrite F4, String.eqb_refl, IH, meas_instr_shape, get_noise_settings_spec, F4. reflexivity.
   - destruct (assoc String.eqb (iname i) factory_lookup) as [op'|] eqn:E'.
     + destruct (lookup_facts _ _ E') as (_ & _ & _ & G4).
-      induction (qubit_targets i) as [|q t IH]; [reflexivity|]. simpl. unfold named at 1. simpl. now rewrite G4, Ei.
+      induction (qubit_targets i) as [|q t IH]; [reflexivity|]. simpl.
+      change (named k (meas_instr s m op' q)) with (String.eqb (stim_canonical op') k). now rewrite G4, Ei.
     + simpl. unfold named. now rewrite Ei.
 Qed.
 
@@ -309,14 +311,14 @@ Proof.
   unfold dress_meas. destruct (assoc String.eqb (iname i) factory_lookup) as [op|] eqn:E; [|simpl; now rewrite app_nil_r].
   destruct (lookup_facts _ _ E) as (_ & _ & F3 & _).
   induction (qubit_targets i) as [|q t IH]; [reflexivity|]. simpl. rewrite IH.
-  unfold qubit_targets at 1. simpl. now rewrite F3.
+  unfold qubit_targets. change (iname (meas_instr s m op q)) with (stim_canonical op). now rewrite F3.
 Qed.
 (* replacing the measurements does not change the set of qubits *)
 Lemma all_targets_dress_measurements s m c : all_targets (dress_measurements s m c) = all_targets c.
 Proof.
-  unfold all_targets, dress_measurements. f_equal. rewrite flat_map_concat_map, concat_map, map_map, <- flat_map_concat_map.
+  unfold all_targets, dress_measurements. f_equal.
   induction c as [|i t IH]; simpl; [reflexivity|].
-  rewrite <- IH. f_equal. rewrite <- flat_map_concat_map. apply qubit_targets_dress_meas.
+  now rewrite flat_map_app, IH, qubit_targets_dress_meas.
 Qed.
 
 (* ------------------------------------------------------------------------------------------ idle channels *)
